@@ -19,7 +19,7 @@ PROPS = {
              coq=('Proofs/Ledger.v', 'Proofs/Reserve.v')),
     'C03': P('number and identity of winners after base selection and after the additional step',
              eps=('select', 'extra'), cats=('ret', 'status'), views=('nrWinning', 'winIds', 'totalTickets'),
-             coq=('Proofs/Shuffle.v',)),
+             coq=('Proofs/Shuffle.v', 'Proofs/Select.v', 'Proofs/GuaranteedLoop.v', 'Proofs/Leftover.v')),
     'C04': P('run_while split law lifted to every resumable endpoint; seeds consumed only by the first call',
              eps=SEL, cats=('ret', 'status'), rng=True, views=('flags',), coq=('Proofs/Loop.v', 'Proofs/Resume.v', 'Proofs/Resume2.v', 'Proofs/Resume3.v', 'Proofs/Resume4.v')),
     'C05': P('sparse Fisher-Yates refines the textbook algorithm; bijection; word stream of the rng',
@@ -41,7 +41,7 @@ PROPS = {
              views=('winIds', 'utStatus', 'nrWinning'), coq=('Proofs/Guaranteed.v', 'Proofs/GuaranteedLoop.v', 'Proofs/Resume2.v', 'Proofs/Resume4.v')),
     'C12': P('W + R = K through allocation / blacklist / un-blacklist; no wrap; leftovers',
              eps=('addTickets', 'blacklist', 'refund', 'unblacklist', 'deposit', 'extra'), cats=('status', 'panic', 'wrap'),
-             rng=True, views=('nrWinning',), coq=('Proofs/Reserve.v',),
+             rng=True, views=('nrWinning',), coq=('Proofs/Reserve.v', 'Proofs/Leftover.v'),
              gentable=('const_staking_gt1', 'const_migration_gt1', 'const_staking_mig', 'const_migration_mig', 'overflow_checks_all')),
     'C13': P('vesting: cumulative formula, monotone, bounded, ends at 100%; schedule acceptance',
              eps=('setSchedule1', 'setSchedule2', 'claim'), cats=('status', 'bal', 'panic', 'wrap'),
